@@ -642,7 +642,33 @@ function runQuery(env, q) {
     }
     case "hash256": {
       const p = getParser(env, q);
-      try { return { r: p.hash256() }; } catch (e) { return { threw: thrown(e) }; }
+      if (!q.tokens) {
+        try { return { r: p.hash256() }; } catch (e) { return { threw: thrown(e) }; }
+      }
+      // also record the canonical encoding as a token sequence (what hash256 feeds its writer), so that a
+      // difference between two digests can be located
+      const proto = HASHMOD.Hash256Writer && HASHMOD.Hash256Writer.prototype;
+      const names = ["updateTag", "updateString", "updateNumber", "updateBoolean", "updateNull"];
+      const tokens = [];
+      const saved = {};
+      let tapped = proto != null && names.every((n) => typeof proto[n] === "function");
+      if (tapped) {
+        const short = { updateTag: "T", updateString: "S", updateNumber: "N", updateBoolean: "B", updateNull: "Z" };
+        for (const n of names) {
+          saved[n] = proto[n];
+          proto[n] = function (v) {
+            if (tokens.length < 40000) tokens.push(short[n] + (n === "updateNull" ? "" : ":" + String(v)));
+            return saved[n].call(this, v);
+          };
+        }
+      }
+      try {
+        return { r: p.hash256(), tokens: tapped ? tokens : null };
+      } catch (e) {
+        return { threw: thrown(e) };
+      } finally {
+        if (tapped) for (const n of names) proto[n] = saved[n];
+      }
     }
     case "describe": {
       const p = getParser(env, q);
